@@ -1,0 +1,79 @@
+//go:build verif
+
+package checker
+
+// Verification hook (add-only, build tag `verif`): thin exported wrappers around the
+// unexported local-environment operations of a real Checker, so that an external harness
+// can drive push/add/resolve sequences and compare them with a model.
+
+import "github.com/elk-language/elk/types"
+
+// VerifLocalEnvs drives the local environment stack of one real Checker.
+type VerifLocalEnvs struct {
+	c   *Checker
+	ids map[*local]int
+}
+
+// NewVerifLocalEnvs creates a real Checker (checker.New()).
+func NewVerifLocalEnvs() *VerifLocalEnvs {
+	return &VerifLocalEnvs{c: New(), ids: make(map[*local]int)}
+}
+
+// Reset restores the initial state: one isolated default environment, hygienic mode.
+func (v *VerifLocalEnvs) Reset() {
+	v.c.resetLocalEnvs()
+	v.c.setUnhygienic(false)
+	v.c.ClearErrors()
+	v.ids = make(map[*local]int)
+}
+
+// Depth is len(c.localEnvs).
+func (v *VerifLocalEnvs) Depth() int { return len(v.c.localEnvs) }
+
+// PushNested calls pushNestedLocalEnv; typ: 0 default, 1 macro boundary (through
+// pushMacroBoundaryLocalEnv), 2 conditional.
+func (v *VerifLocalEnvs) PushNested(typ int) {
+	switch typ {
+	case 1:
+		v.c.pushMacroBoundaryLocalEnv()
+	case 2:
+		v.c.pushNestedLocalEnv(conditionalLocalEnvType)
+	default:
+		v.c.pushNestedLocalEnv(defaultLocalEnvType)
+	}
+}
+
+func (v *VerifLocalEnvs) PushIsolated() { v.c.pushIsolatedLocalEnv() }
+func (v *VerifLocalEnvs) Pop()          { v.c.popLocalEnv() }
+
+// Add calls c.addLocal with a fresh *local tagged by id.
+func (v *VerifLocalEnvs) Add(name string, id int) {
+	l := newLocal(types.Any{}, true, false)
+	v.ids[l] = id
+	v.c.addLocal(name, l)
+}
+
+// Resolve sets the unhygienic flag the way checkExpressionUnhygienicNode does and calls
+// c.resolveLocal. Returns the id given to Add, the index of the environment holding the
+// binding and nestedInConditionalScope. failed reports whether a failure diagnostic was added.
+func (v *VerifLocalEnvs) Resolve(name string, unhygienic bool) (id int, envIndex int, nested bool, found bool, failed bool) {
+	prev := v.c.isUnhygienic()
+	v.c.setUnhygienic(unhygienic)
+	l, ctx := v.c.resolveLocal(name, v.c.newLocation(nil))
+	v.c.setUnhygienic(prev)
+	failed = v.c.Errors.IsFailure()
+	v.c.ClearErrors()
+	if l == nil {
+		return 0, 0, false, false, failed
+	}
+	return v.ids[l], ctx.env.index, ctx.nestedInConditionalScope, true, failed
+}
+
+// GetLocal calls c.getLocal (current environment only).
+func (v *VerifLocalEnvs) GetLocal(name string) (id int, found bool) {
+	l := v.c.getLocal(name)
+	if l == nil {
+		return 0, false
+	}
+	return v.ids[l], true
+}
